@@ -109,6 +109,7 @@ type Patch struct {
 	Addr unsafe.Pointer
 	Src  unsafe.Pointer
 	Type reflect.Type
+	Skip bool // the span may change freely here; the caller compares the stored value semantically
 }
 
 // Diff compares two images.  Every byte outside the patches must be identical (padding and canaries
@@ -127,7 +128,11 @@ func (a *Arena[S]) Diff(before, after Image, patches ...Patch) string {
 		if !ok {
 			return fmt.Sprintf("harness: expected write at %p lies in no observed region", p.Addr)
 		}
-		spans = append(spans, span{ri, off, off + p.Type.Size(), append([]byte(nil), bytesAt(p.Src, p.Type.Size())...), valueMask(p.Type)})
+		m := valueMask(p.Type)
+		if p.Skip {
+			m = make([]bool, p.Type.Size())
+		}
+		spans = append(spans, span{ri, off, off + p.Type.Size(), append([]byte(nil), bytesAt(p.Src, p.Type.Size())...), m})
 	}
 	for ri := range a.regions {
 		b, c := before[ri], after[ri]
